@@ -143,10 +143,10 @@ PROPS["C12"] = {
              "policy rejection; distinct = (subject hash, offset, kind)."),
     "assumptions": ["a crash is modelled as an observation at a callback boundary, not a kill between two syscalls"],
     "quick": [rapid("concurrentpoison", "^TestPropConcurrentPoison$", 60, shards=1), rapid("archivewriter", "^TestPropArchiveWriter$", 6, shards=3), rapid("packwriter", "^TestPropPackWriter$", 12, shards=3), rapid("unpackreader", "^TestPropUnpackReader$", 12, shards=3),
-              rapid("policy", "^TestPropPolicy$", 600, shards=1), rapid("bundlefaults", "^TestPropBundleFaults$", 25, shards=4),
+              rapid("policy", "^TestPropPolicy$", 600, shards=1), rapid("sourcevanish", "^TestPropSourceVanish$", 300, shards=1), rapid("bundlefaults", "^TestPropBundleFaults$", 25, shards=4),
               rapid("diagnostics", "^TestPropDiagnostics$", 800, shards=1), rapid("worlderrors", "^TestPropWorldErrors$", 1500, shards=1)],
     "thorough": [rapid("concurrentpoison", "^TestPropConcurrentPoison$", 1500, shards=2), rapid("archivewriter", "^TestPropArchiveWriter$", 60, shards=4), rapid("packwriter", "^TestPropPackWriter$", 150, shards=5), rapid("unpackreader", "^TestPropUnpackReader$", 150, shards=5),
-                 rapid("policy", "^TestPropPolicy$", 20000, shards=1), rapid("bundlefaults", "^TestPropBundleFaults$", 400, shards=8),
+                 rapid("policy", "^TestPropPolicy$", 20000, shards=1), rapid("sourcevanish", "^TestPropSourceVanish$", 10000, shards=2), rapid("bundlefaults", "^TestPropBundleFaults$", 400, shards=8),
                  rapid("diagnostics", "^TestPropDiagnostics$", 20000, shards=2), rapid("worlderrors", "^TestPropWorldErrors$", 30000, shards=2)],
 }
 
